@@ -31,14 +31,14 @@ const PROTO: u16 = 0x7777;
 const NODE_A: u64 = 100;
 const NODE_B: u64 = 200;
 
-fn key(b: u8) -> CanonAeadKey {
+pub fn key(b: u8) -> CanonAeadKey {
     let mut k = CanonAeadKey::new();
     k.access_mut().copy_from_slice(&[b; 16]);
     k
 }
 
 /// Plant session `s` (1 or 2) on node `m`; `is_a`: this is node A's end.
-fn plant(m: &Matter, s: u8, is_a: bool, pase: bool) -> u32 {
+pub fn plant(m: &Matter, s: u8, is_a: bool, pase: bool) -> u32 {
     m.with_state(|st| {
         if st.fabrics.iter().count() == 0 {
             st.fabrics.add_with_post_init(|_| Ok(())).unwrap();
